@@ -255,7 +255,10 @@ def splice(prelude_src, master_src, ext_src, deferred, quarantined=()):
                 # Did the control-flow skeleton change?  The proof script inside a body (proof blocks, ghost
                 # lets, loop invariants) is tied to program points; if branches or exits were added, removed or
                 # reshaped, a clause may fail on the new code only because its proof hints sit on another path.
-                body_ghost = any(r[0] > it.body_lo for r in regs if r[2] == "ann")
+                # (ghost text before the first executable token of the body is not tied to a program point)
+                body_exec = [k for k in kept if k > it.body_lo]
+                first_exec = body_exec[0] if body_exec else it.hi
+                body_ghost = any(r[0] > first_exec for r in regs if r[2] == "ann")
                 report["functions"][name] = {"status": "transplanted", "exec_tokens": len(A), "similarity": round(ratio, 4),
                                              "annotations_dropped_with_their_code": dropped,
                                              "skeleton_changed": skeleton(K) != skeleton(A), "body_ghost": body_ghost}
